@@ -310,7 +310,10 @@ var stackTable = []stackRow{
 		}
 		m := vendingpb.NewModel(opts...)
 		r := vendingpb.NewApiRouter()
-		r.Add(devName, vendingpb.WrapApi(vendingpb.NewModelServer(m)))
+		c := vendingpb.WrapApi(vendingpb.NewModelServer(m))
+		for _, n := range aliasNames {
+			r.Add(n, c) // and the device under several names
+		}
 		return vendingpb.WrapApi(r), m
 	}, "icpt"},
 	{"hailpb", "NewModelServer", func() (any, any) {
@@ -331,6 +334,34 @@ var stackTable = []stackRow{
 		r.Add(devName, publicationpb.WrapApi(publicationpb.NewModelServer(m)))
 		return publicationpb.WrapApi(r), m
 	}, "icpt"},
+	// ---- one device under several names (see rowNames): the router routes each of them to the same server ------------
+	{"onoffpb", "NewModelServer", func() (any, any) {
+		m := onoffpb.NewModel()
+		r := onoffpb.NewApiRouter()
+		c := onoffpb.WrapApi(onoffpb.NewModelServer(m))
+		for _, n := range aliasNames {
+			r.Add(n, c)
+		}
+		return onoffpb.WrapApi(r), m
+	}, "aliases"},
+	{"airtemperaturepb", "NewMemoryDevice", func() (any, any) {
+		m := airtemperaturepb.NewMemoryDevice()
+		r := airtemperaturepb.NewApiRouter()
+		c := airtemperaturepb.WrapApi(m)
+		for _, n := range aliasNames {
+			r.Add(n, c)
+		}
+		return airtemperaturepb.WrapApi(r), m
+	}, "aliases"},
+	{"occupancysensorpb", "NewModelServer", func() (any, any) {
+		m := occupancysensorpb.NewModel()
+		r := occupancysensorpb.NewApiRouter()
+		c := occupancysensorpb.WrapApi(occupancysensorpb.NewModelServer(m))
+		for _, n := range aliasNames {
+			r.Add(n, c)
+		}
+		return occupancysensorpb.WrapApi(r), m
+	}, "aliases"},
 	// ---- routers that create their clients on first use (generated WithXxxApiClientFactory): see gatedRows --------
 	{"onoffpb", "NewModelServer", func() (any, any) { return gatedRows["onoffpb.NewModelServer+factory"](&gate{}), nil }, "factory"},
 	{"airtemperaturepb", "NewModelServer", func() (any, any) { return gatedRows["airtemperaturepb.NewModelServer+factory"](&gate{}), nil }, "factory"},
@@ -352,6 +383,19 @@ type rowExtra struct {
 	// interceptor maps to the same stored id (sometimes the id as it is). Every Get / Update / Pull / Delete request of
 	// a keyed session spells the id of its item afresh: the item is one register under every spelling
 	Spell func(r *rand.Rand, key string) string
+}
+
+// aliasNames: the names the router of an alias row knows the one device under.
+var aliasNames = []string{devName, "DEV", "dev/2"}
+
+// rowNames: rows whose router routes several names to the one server. Every request of a register / keyed session on
+// such a row names the device by one of them; the register is one, and the changes on a stream carry the name given in
+// ITS Pull request.
+var rowNames = map[string][]string{
+	"onoffpb.NewModelServer+aliases":           aliasNames,
+	"airtemperaturepb.NewMemoryDevice+aliases": aliasNames,
+	"occupancysensorpb.NewModelServer+aliases": aliasNames,
+	"vendingpb.NewModelServer+icpt":            aliasNames,
 }
 
 var rowExtras = map[string]rowExtra{
